@@ -53,6 +53,8 @@ def generate(seed, tier):
         return gen_additivity(rng, tier)
     if r0 < 0.45:
         return gen_reread(rng, tier)
+    if r0 < 0.55:
+        return gen_directory(rng, tier)
     n = rng.choice([1, 2, 2, 3, 3, 4])
     sess = [sl.gen_session(rng, tier, i) for i in range(n)]
     faults = []
@@ -78,6 +80,30 @@ def generate(seed, tier):
             "schedule": cm.gen_schedule(rng, n, nsteps), "io_seed": rng.randrange(1 << 30),
             "short_reads": rng.random() < 0.8, "listdir_seed": rng.randrange(1 << 30),
             "hashseed2": rng.random() < (0.8 if any(s["kind"] == "ptb" for s in sess) else 0.3)}
+
+
+def gen_directory(rng, tier):
+    """One command over a directory of files vs the same command over each file alone: what is
+    written for a file depends only on that file (and the parameter files)."""
+    fmt = rng.choice(["export", "brackets", "discobrackets", "tigerxml"])
+    cont = fmt == "brackets"
+    n = rng.choice([2, 3, 4])
+    files = []
+    for j in range(n):
+        tb = sl.gen_tb(rng, tier, continuous=cont, nsent=rng.choice([1, 2, 3, 5]))
+        gz = fmt != "tigerxml" and rng.random() < 0.4
+        files.append({"tb": tb, "gz": gz, "layout": rng.randrange(1 << 30)})
+    trans = [list(x) for x in rng.choice(sl.TRANS_PIPELINES[:10])]
+    d = {"mode": "directory", "fmt": fmt, "files": files, "trans": trans,
+         "dest_fmt": rng.choice(["export", "terminals", "discobrackets", "tigerxml"]),
+         "io_seed": rng.randrange(1 << 30), "listdir_seed": rng.randrange(1 << 30),
+         "terms": None}
+    if rng.random() < 0.4:
+        which = rng.choice(["insert_terminals", "substitute_terminals"])
+        d["terms"] = {"op": which,
+                      "raw": sl.tfile(rng, [s for f in files for s in f["tb"]][:6],
+                                      which == "insert_terminals")["raw"]}
+    return d
 
 
 def gen_reread(rng, tier):
@@ -239,6 +265,82 @@ def execute_reread(sc, sim):
     return {"violations": viols, "stats": st.done(repr(shape), True, sample)}
 
 
+def execute_directory(sc, sim):
+    st = cm.Stats()
+    st.declare("directory_vs_single_file_runs", "gzip_source_opened", "terminal_file_in_directory_run")
+    fmt = sc["fmt"]
+    codec, ext = sl.SRC[fmt]
+    names = []
+    blobs = {}
+    for j, f in enumerate(sc["files"]):
+        name = "f%d%s%s" % (j, ext, ".gz" if f["gz"] else "")
+        names.append(name)
+        blobs[name] = cm.render_file({"tb": f["tb"], "codec": codec, "layout": f["layout"],
+                                      "enc": "utf-8", "gz": f["gz"]})
+    extra = {}
+    trans = [t[0] for t in sc["trans"]]
+    params = {}
+    for t in sc["trans"]:
+        params.update(t[1])
+    if sc.get("terms"):
+        extra["/sim/w/terms.txt"] = sc["terms"]["raw"].encode("utf-8")
+        trans = [sc["terms"]["op"]] + trans
+        params.update({"terminalfile": "/sim/w/terms.txt", "quiet": True})
+        st.probe("terminal_file_in_directory_run")
+
+    def argv(src, dest):
+        a = ["transform", src, dest, "--src-format", fmt, "--dest-format", sc["dest_fmt"],
+             "--src-opts", "quiet"]
+        if trans:
+            a += ["--trans"] + trans
+        if params:
+            a += ["--params"] + ["%s:%s" % (k, v) if v is not True else k
+                                 for k, v in sorted(params.items())]
+        return a
+    files = dict(("/sim/w/d/" + n, b) for n, b in blobs.items())
+    files.update(extra)
+    whole = sim.run({"files": files, "dirs": ["/sim/w/d"], "io_seed": sc["io_seed"],
+                     "listdir_seed": sc["listdir_seed"],
+                     "sessions": [{"id": "c", "ops": [["cli", argv("/sim/w/d", "/sim/w/x")]]}]})
+    st.add_obs(whole)
+    st.probe("directory_vs_single_file_runs")
+    st.fault("history")
+    viols = []
+    wrec = whole["sessions"]["c"][0]
+    wfailed = "exc" in wrec or wrec["ok"].get("exit") != 0
+    any_single_failed = False
+    singles = {}
+    for n in names:
+        fl = {"/sim/w/d/" + n: blobs[n]}
+        fl.update(extra)
+        one = sim.run({"files": fl, "dirs": ["/sim/w/d"], "io_seed": sc["io_seed"],
+                       "sessions": [{"id": "c", "ops": [["cli", argv("/sim/w/d/" + n,
+                                                                   "/sim/w/d/" + n + ".dest")]]}]})
+        st.add_obs(one)
+        r = one["sessions"]["c"][0]
+        if "exc" in r or r["ok"].get("exit") != 0:
+            any_single_failed = True
+        singles[n] = one["files"].get("/sim/w/d/" + n + ".dest")
+    st.check("directory_runs_judged")
+    if wfailed != any_single_failed:
+        viols.append(cm.viol("C18/directory/failure-not-additive", whole_failed=wfailed,
+                             some_file_failed=any_single_failed, fmt=fmt, trans=trans))
+    elif not wfailed:
+        for n in names:
+            got = whole["files"].get("/sim/w/d/" + n + ".dest")
+            if got != singles[n]:
+                viols.append(cm.viol("C18/directory/%s%s/output-depends-on-other-files"
+                                     % (fmt, "/gz" if n.endswith(".gz") else ""),
+                                     file=n, trans=trans, dest_fmt=sc["dest_fmt"],
+                                     sizes=[len(got or b""), len(singles[n] or b"")]))
+                break
+    shape = ("directory", fmt, sc["dest_fmt"], tuple(trans), tuple(f["gz"] for f in sc["files"]),
+             bool(sc.get("terms")))
+    sample = {"mode": "directory", "fmt": fmt, "dest_fmt": sc["dest_fmt"], "trans": trans,
+              "files": [{"gz": f["gz"], "sentences": len(f["tb"])} for f in sc["files"]]}
+    return {"violations": viols, "stats": st.done(repr(shape), True, sample)}
+
+
 def strip_ids(recs):
     from .. import treeview
     out = []
@@ -260,6 +362,8 @@ def execute(sc, sim):
         return execute_additivity(sc, sim)
     if sc["mode"] == "reread":
         return execute_reread(sc, sim)
+    if sc["mode"] == "directory":
+        return execute_directory(sc, sim)
     st = cm.Stats()
     st.declare("three_plus_sessions_interleaved", "two_readers_same_format_alive",
                "history_length_3plus", "history_contains_failed_call", "cancellation_mid_file",
@@ -698,6 +802,31 @@ def cmp_seq(exp, got, dfmt, sc, tag, what, ignore_sid=None):
 
 # ---------------------------------------------------------------------------------- shrink
 def shrink_candidates(sc):
+    if sc["mode"] == "directory":
+        if len(sc["files"]) > 1:
+            for i in range(len(sc["files"])):
+                c = model.clone(sc)
+                del c["files"][i]
+                yield c
+        for i in range(len(sc["trans"])):
+            c = model.clone(sc)
+            del c["trans"][i]
+            yield c
+        if sc.get("terms"):
+            c = model.clone(sc)
+            c["terms"] = None
+            yield c
+        for i, f in enumerate(sc["files"]):
+            if f["gz"]:
+                c = model.clone(sc)
+                c["files"][i]["gz"] = False
+                yield c
+            for tb in model.shrink_treebank(f["tb"]):
+                if tb:
+                    c = model.clone(sc)
+                    c["files"][i]["tb"] = tb
+                    yield c
+        return
     if sc["mode"] == "reread":
         for key in ("tb1", "tb2"):
             for tb in model.shrink_treebank(sc[key]):
